@@ -310,6 +310,147 @@ Example C10_example :
                     (ScmpReturn.m_reply m) (ScmpReturn.m_back m) = true.
 Proof. vm_compute. repeat split; reflexivity. Qed.
 
+(** NON-VACUITY OF THE TRACEROUTE HALF (audit follow-up).  The same path, an SCMP traceroute
+    request (type 130, identifier 4242, sequence 1) as payload.  Hop fields: 0 = AS 20 and
+    1 = AS 10 (up segment, against construction direction: the ConsEgress bit is the ingress
+    flag), 2 = AS 10 and 3 = AS 30 (down segment: the ConsIngress bit is the ingress flag). *)
+Definition ex_tr_raw : bytes := repeat 0 92 ++ [130; 0; 0; 0; 16; 146; 0; 1] ++ repeat 0 16.
+Definition ex_tr_pp : pparams := mkPP 20 30 0 0 [10; 0; 0; 2] [10; 0; 0; 1] 24 (Some 30041).
+Definition ex_tr (kx : nat) (a e : bool) : ScmpReturn.mobs :=
+  ScmpReturn.model_q ex_macq ex_topo ex_hosts ex_now ex_now ex_prov ex_tr_pp (ScmpReturn.PAlert kx a e) None
+                     0 0 202 202 92 0 ex_tr_raw.
+
+(** the flag of interface 1 of AS 10 (ingress of hop 1): router 10/r0, which receives the packet
+    over that interface, answers; the reply names ISD-AS 10, interface 1, identifier and sequence
+    of the request, and is delivered to 10.0.0.1 at port 4242 (the identifier) *)
+Example C10_traceroute_example_ingress :
+  let m := ex_tr 1 false true in
+  ScmpReturn.alert_on_path ex_prov (ScmpReturn.PAlert 1 false true) = true /\
+  in_flag ex_prov 1 false true = true /\ eg_flag ex_prov 1 false true = false /\
+  map (fun s => (t_ia s, t_rtr s)) (fst (ScmpReturn.m_fwd m)) = [(20, 0)] /\
+  snd (ScmpReturn.m_fwd m) = Stopped 10 0 KAlert /\
+  match ScmpReturn.m_stop m with
+  | Some (l, inp, SlowPath rq eg out) =>
+    l = ScmpReturn.pos_loc ex_topo ex_prov 1 ScmpReturn.AExt /\
+    inp = ScmpReturn.set_alerts 1 false true (ScmpReturn.pos_pkt ex_prov ex_tr_pp 1 ScmpReturn.AExt) /\
+    rq = SpAlertIngress /\ out = render ex_prov ex_tr_pp 1 true
+  | _ => False
+  end /\
+  match ScmpReturn.m_reply m, ScmpReturn.m_back m with
+  | RouterScmp.SReply r, ScmpReturn.BWalk w =>
+    RouterScmp.r_l4 r = [131; 0; 87; 94] ++ ScmpReturn.tr_reply_body 4242 1 10 1 /\
+    snd w = Delivered 20 0 [10; 0; 0; 1] 4242 /\ crossed (fst w) = [(20, 1)]
+  | _, _ => False
+  end /\
+  ScmpReturn.c10_ok ex_topo ex_prov ex_tr_pp (ScmpReturn.PAlert 1 false true) 1 1 ScmpReturn.AExt (Some (4242, 1)) 202 92
+                    (ScmpReturn.pos_loc ex_topo ex_prov 1 ScmpReturn.AExt)
+                    (ScmpReturn.m_reply m) (ScmpReturn.m_back m) = true.
+Proof. vm_compute. repeat split; reflexivity. Qed.
+
+(** the flag of interface 2 of AS 10 (egress of hop 2): 20/r0 and 10/r0 forward with the flag
+    untouched (10/r0 after the segment change: it does not own interface 2), 10/r1 answers *)
+Example C10_traceroute_example_egress :
+  let m := ex_tr 2 false true in
+  ScmpReturn.alert_on_path ex_prov (ScmpReturn.PAlert 2 false true) = true /\
+  eg_flag ex_prov 2 false true = true /\ in_flag ex_prov 2 false true = false /\
+  map (fun s => (t_ia s, t_rtr s)) (fst (ScmpReturn.m_fwd m)) = [(20, 0); (10, 0)] /\
+  snd (ScmpReturn.m_fwd m) = Stopped 10 1 KAlert /\
+  match ScmpReturn.m_stop m with
+  | Some (l, inp, SlowPath rq eg out) =>
+    l = ScmpReturn.pos_loc ex_topo ex_prov 2 ScmpReturn.ASib /\
+    inp = ScmpReturn.set_alerts 2 false true (ScmpReturn.pos_pkt ex_prov ex_tr_pp 2 ScmpReturn.ASib) /\
+    rq = SpAlertEgress /\ eg = 2 /\ out = render ex_prov ex_tr_pp 2 true
+  | _ => False
+  end /\
+  match ScmpReturn.m_reply m, ScmpReturn.m_back m with
+  | RouterScmp.SReply r, ScmpReturn.BWalk w =>
+    RouterScmp.r_l4 r = [131; 0; 87; 92] ++ ScmpReturn.tr_reply_body 4242 1 10 2 /\
+    snd w = Delivered 20 0 [10; 0; 0; 1] 4242 /\ crossed (fst w) = [(10, 1); (20, 1)]
+  | _, _ => False
+  end /\
+  ScmpReturn.c10_ok ex_topo ex_prov ex_tr_pp (ScmpReturn.PAlert 2 false true) 2 2 ScmpReturn.ASib (Some (4242, 1)) 202 92
+                    (ScmpReturn.pos_loc ex_topo ex_prov 2 ScmpReturn.ASib)
+                    (ScmpReturn.m_reply m) (ScmpReturn.m_back m) = true.
+Proof. vm_compute. repeat split; reflexivity. Qed.
+
+(** the egress flag of hop 0: the first router (it owns interface 1 of AS 20) answers the host directly *)
+Example C10_traceroute_example_first :
+  let m := ex_tr 0 true false in
+  eg_flag ex_prov 0 true false = true /\
+  snd (ScmpReturn.m_fwd m) = Stopped 20 0 KAlert /\
+  ScmpReturn.m_back m = ScmpReturn.BDirect 20 0 /\
+  ScmpReturn.c10_ok ex_topo ex_prov ex_tr_pp (ScmpReturn.PAlert 0 true false) 0 0 ScmpReturn.AHost (Some (4242, 1)) 202 92
+                    (ScmpReturn.pos_loc ex_topo ex_prov 0 ScmpReturn.AHost)
+                    (ScmpReturn.m_reply m) (ScmpReturn.m_back m) = true.
+Proof. vm_compute. repeat split; reflexivity. Qed.
+
+(** untouched flags: the ConsEgress bit of the last hop field is the flag of no interface of
+    the path — all four routers forward, the packet is delivered with the bit still set;
+    the ConsIngress bit of the last hop field (interface 1 of AS 30) passes three routers
+    untouched and is answered by 30/r0 *)
+Example C10_traceroute_example_untouched :
+  ScmpReturn.alert_on_path ex_prov (ScmpReturn.PAlert 3 false true) = false /\
+  let sent := ScmpReturn.set_alerts 3 false true (render ex_prov ex_tr_pp 0 false) in
+  let w := ScmpReturn.run_x ex_macq ex_topo None ex_now (fuel_for sent) (mkLoc 20 0 InInt) sent in
+  map (fun x => (t_ia (fst x), t_rtr (fst x))) (fst w) = [(20, 0); (10, 0); (10, 1); (30, 0)] /\
+  snd w = ScmpReturn.XFin (Delivered 30 0 [10; 0; 0; 2] 30041) /\
+  Forall (fun x => p_hops (snd x) = p_hops sent) (fst w) /\
+  let m := ex_tr 3 true false in
+  map (fun s => (t_ia s, t_rtr s)) (fst (ScmpReturn.m_fwd m)) = [(20, 0); (10, 0); (10, 1)] /\
+  snd (ScmpReturn.m_fwd m) = Stopped 30 0 KAlert /\
+  ScmpReturn.c10_ok ex_topo ex_prov ex_tr_pp (ScmpReturn.PAlert 3 true false) 3 3 ScmpReturn.AExt (Some (4242, 1)) 202 92
+                    (ScmpReturn.pos_loc ex_topo ex_prov 3 ScmpReturn.AExt)
+                    (ScmpReturn.m_reply m) (ScmpReturn.m_back m) = true.
+Proof. vm_compute. repeat split; try reflexivity. repeat constructor. Qed.
+
+(** the hypotheses of the traceroute theorems hold at these positions of [ex_prov] *)
+Lemma ex_good : good toy ex_topo ex_prov.
+Proof. repeat split; vm_compute; reflexivity. Qed.
+
+Example C10_traceroute_hypotheses :
+  endpoints_ok ex_topo ex_prov ex_tr_pp = true /\ all_unexpired ex_now ex_prov = true /\
+  (* C10_traceroute_ingress: q k r a e := render .. 1 false, 1, 0, false, true *)
+  (view ex_prov ex_tr_pp (nhops ex_prov) (length (pv_segs ex_prov)) (render ex_prov ex_tr_pp 1 false) 1 1 false /\
+   (1 < nhops ex_prov)%nat /\ crosses ex_prov (1 - 1) = true /\
+   in_flag ex_prov 1 false true = true /\ eg_flag ex_prov 1 false true = false) /\
+  (* C10_traceroute_egress: q k ing r a e := render .. 0 false, 0, InInt, 0, true, false *)
+  (view ex_prov ex_tr_pp (nhops ex_prov) (length (pv_segs ex_prov)) (render ex_prov ex_tr_pp 0 false) 0 0 false /\
+   arrives ex_prov 0 InInt /\ eg_rtr ex_topo ex_prov (eff ex_prov 0) = 0 /\
+   eg_flag ex_prov (eff ex_prov 0) true false = true /\ in_flag ex_prov (eff ex_prov 0) true false = false) /\
+  (* C10_traceroute_egress_sibling / C10_flag_untouched_sibling: q k k0 := render .. 2 true, 2, 1 *)
+  (view ex_prov ex_tr_pp (nhops ex_prov) (length (pv_segs ex_prov)) (render ex_prov ex_tr_pp 2 true) 2 2 true /\
+   crosses ex_prov 2 = true /\ entry ex_prov 2 = 1%nat /\ crosses ex_prov (1 - 1) = true /\
+   as_of ex_topo ex_prov 1 = as_of ex_topo ex_prov 2 /\
+   in_rtr ex_topo ex_prov 1 <> eg_rtr ex_topo ex_prov 2 /\
+   eg_flag ex_prov 2 false true = true /\ in_flag ex_prov 2 false true = false /\
+   (2%nat <> 3%nat \/ eg_flag ex_prov 2 true false = false)) /\
+  (* C10_flag_untouched: 10/r0 with the egress flag of hop 2 (it does not own interface 2):
+     q k ing r kx a e := render .. 1 false, 1, InExt 1, 0, 2, false, true *)
+  (arrives ex_prov 1 (InExt 1) /\ (1%nat <> 2%nat \/ in_flag ex_prov 1 false true = false \/ InExt 1 = InInt) /\
+   (eff ex_prov 1 <> 2%nat \/ eg_flag ex_prov (eff ex_prov 1) false true = false \/
+    eg_rtr ex_topo ex_prov (eff ex_prov 1) <> 0)) /\
+  (* C10_flag_untouched_last: q k ing r kx a e := render .. 3 false, 3, InExt 1, 0, 3, false, true *)
+  (view ex_prov ex_tr_pp (nhops ex_prov) (length (pv_segs ex_prov)) (render ex_prov ex_tr_pp 3 false) 3 3 false /\
+   4%nat = nhops ex_prov /\ arrives ex_prov 3 (InExt 1) /\
+   (3%nat <> 3%nat \/ in_flag ex_prov 3 false true = false)).
+Proof.
+  split; [vm_compute; reflexivity|]. split; [vm_compute; reflexivity|].
+  split.
+  { split; [apply view_render|]. repeat split; vm_compute; auto. }
+  split.
+  { split; [apply view_render|]. split; [left; auto|]. repeat split; vm_compute; reflexivity. }
+  split.
+  { split; [apply view_render|]. split; [vm_compute; reflexivity|]. split; [vm_compute; reflexivity|].
+    split; [vm_compute; reflexivity|]. split; [vm_compute; reflexivity|].
+    split; [vm_compute; discriminate|]. split; [vm_compute; reflexivity|]. split; [vm_compute; reflexivity|].
+    left. discriminate. }
+  split.
+  { split; [right; repeat split; vm_compute; auto|]. split; [left; discriminate|].
+    right. right. vm_compute. discriminate. }
+  split; [apply view_render|]. split; [reflexivity|]. split; [right; repeat split; vm_compute; auto|].
+  right. vm_compute. reflexivity.
+Qed.
+
 (** KNOWN FINDING, refuted on the faithful model.  The sender (or time) makes hop field 1 —
     AS 10's hop field of the up segment, traversed against construction direction —
     expired.  Router 10/r0 answers PathExpired BEFORE it has folded the hop's MAC out
